@@ -24,7 +24,7 @@ hook.install()
 MOD = "props.c02r"
 ALPHA = ranges_of_pts([ord(c) for c in "aAzZ-_1"])
 KIND_TOKEN = {"string": ["str"], "integer": ["int"], "date": ["date"], "datetime": ["datetime"], "uuid": ["UUID"], "array": ["List", "str"], "enum_ref": ["Color"],
-              "model_ref": ["Other"], "map": ["dict"]}
+              "model_ref": ["Other"], "map": ["dict"], "map_default": ["dict"], "ref_default": ["Other"]}
 
 
 def k_render(P, pname, ptype, required, sibling_type, sib_required, last="zz"):
@@ -136,8 +136,8 @@ def mk(n, ptypes, last="zz"):
 
 def specs(tier):
     if tier == "quick":
-        return [(MOD, "mk", (1, tuple(c01.PTYPES))), (MOD, "mk", (2, ("string", "array", "model_ref"))), (MOD, "mk", (2, ("string", "integer"), "aa_2"))]
-    return [(MOD, "mk", (1, tuple(c01.PTYPES))), (MOD, "mk", (2, tuple(c01.PTYPES))), (MOD, "mk", (3, ("string", "array"))), (MOD, "mk", (2, ("string", "integer"), "aa_2")),
+        return [(MOD, "mk", (1, tuple(c01.PTYPES) + ("map_default", "ref_default"))), (MOD, "mk", (2, ("string", "array", "model_ref"))), (MOD, "mk", (2, ("string", "integer"), "aa_2"))]
+    return [(MOD, "mk", (1, tuple(c01.PTYPES) + ("map_default", "ref_default"))), (MOD, "mk", (2, tuple(c01.PTYPES))), (MOD, "mk", (3, ("string", "array"))), (MOD, "mk", (2, ("string", "integer"), "aa_2")),
             (MOD, "mk", (3, ("string",), "aa_2"))]
 
 
